@@ -227,6 +227,20 @@ CHECKS = {
          "remove, which the HMAC cannot see because slot ids are not hashed) are outside the property's single-corruption quantifier.",
     technique="TLA+ key storage model with adversary + TLC; model-based replay on the real KeyStorage; TLC trace validation",
     ref="5.20"),
+ "C14": dict(
+    level="model_checking",
+    text="Selector.tla transcribes the label-term algebra (exists / equal / in / lexical and numeric comparisons with unit "
+         "suffixes, inversion, missing labels, value-less terms, non-numeric operands; AND within a query, OR across queries) "
+         "over a curated string set with explicit order and parse tables; TLC checks algebraic laws (inversion duality except "
+         "for `nil`, lt => lte, equal = singleton in) and emits the complete truth table (201 queries x 12 label maps). Every "
+         "row is evaluated at seven sites of the real code - LabelQueries.Matches, inmem List, inmem kind watch (bootstrap and "
+         "live), the runtime ResourceCache List (facade), gRPC List and gRPC kind watch (client translation -> wire -> server "
+         "conversion) - and TLC judges each site's matched set against the algebra (TraceSelector.tla); ID-regexp selectors: "
+         "all sites must agree with regexp.MatchString. Filtered kind watches as exact change logs of the filtered set are "
+         "model-checked (WatchLog.tla rewrite rule) and replayed/judged as in C02.",
+    note="Trusted: TLC, Go's regexp engine, the curated string tables (10 strings).",
+    technique="TLA+ selector algebra + TLC truth-table enumeration; table replay at every selector site; TLC trace validation",
+    ref="5.14"),
 }
 
 NOT_YET = "check not built yet in this round (planned, see DESIGN.md section 5)"
